@@ -33,7 +33,7 @@ SameLogs(o, cs) == /\ o.tlog = cs.tlog /\ o.clog = cs.clog /\ NameStatus(o.mlog)
 \* the harness had seen at least this much before performing script step i
 SeenOK(o, sn) == Len(o.tlog) >= sn.tl /\ Len(o.clog) >= sn.cl /\ Len(o.mlog) >= sn.ml /\ o.dials >= sn.dl
 
-StartState(cs) == /\ st = [c \in Conns |-> InitConn(cs.hs, cs.tk)] /\ ob = [c \in Conns |-> InitOb]
+StartState(cs) == /\ st = [c \in Conns |-> InitConn(cs.hs, cs.tk, -1, -1)] /\ ob = [c \in Conns |-> InitOb]
                   /\ now = 0 /\ lst = "open" /\ srv = "accept" /\ tr = <<>>
 TraceInit == l = 1 /\ si = 1 /\ (IF Len(Trace) >= 1 THEN StartState(Trace[1]) ELSE StartState([hs |-> "valid", tk |-> "ok"]))
 
@@ -68,8 +68,8 @@ NextCase ==
   /\ l' = l + 1 /\ si' = 1
   /\ IF l + 1 <= Len(Trace)
      THEN LET n == Trace[l + 1] IN
-          /\ st' = [c \in Conns |-> InitConn(n.hs, n.tk)] /\ ob' = [c \in Conns |-> InitOb]
-     ELSE /\ st' = [c \in Conns |-> InitConn("valid", "ok")] /\ ob' = [c \in Conns |-> InitOb]
+          /\ st' = [c \in Conns |-> InitConn(n.hs, n.tk, -1, -1)] /\ ob' = [c \in Conns |-> InitOb]
+     ELSE /\ st' = [c \in Conns |-> InitConn("valid", "ok", -1, -1)] /\ ob' = [c \in Conns |-> InitOb]
   /\ now' = 0 /\ lst' = "open" /\ srv' = "accept" /\ tr' = <<>>
 
 TraceNext == EnvStep \/ Internal \/ NextCase
